@@ -8,6 +8,9 @@ import (
 	"path/filepath"
 	"strings"
 
+	"github.com/wmnsk/go-pfcp/ie"
+	"github.com/wmnsk/go-pfcp/message"
+
 	"verif/harness/internal/agent"
 	"verif/harness/internal/core"
 	"verif/harness/internal/e2e"
@@ -276,4 +279,14 @@ func C07(c *core.Ctx) {
 
 	res := runE2EMixed(c, len(specs), "TraceE2E_C07.cfg", func(i int) (string, interface{}) { return specs[i](i) })
 	judgeE2E(c, res, map[string]bool{"InEnvelope": true})
+}
+
+// messageHeartbeat builds a Heartbeat Request of the scripted peer.
+func messageHeartbeat(p *pfcpx.Peer) message.Message {
+	return message.NewHeartbeatRequest(p.NextSeq(), ie.NewRecoveryTimeStamp(p.TS), nil)
+}
+
+// messageRelease builds an Association Release Request of the scripted peer.
+func messageRelease(p *pfcpx.Peer) message.Message {
+	return message.NewAssociationReleaseRequest(p.NextSeq(), ie.NewNodeID(p.NodeID, "", ""))
 }
